@@ -354,9 +354,11 @@ package proxy
 //@ func (*staticUpstream).healthCheck
 //@ func (*staticUpstream).HealthCheckWorker
 //@   requires u != nil && u.HealthCheck.Interval > 0
+//@ func (headerReplacements).Add
+//@   modifies MV:map[string][]github.com/tmpim/casket/caskethttp/proxy.headerReplacement, MD:map[string][]github.com/tmpim/casket/caskethttp/proxy.headerReplacement, E:github.com/tmpim/casket/caskethttp/proxy.headerReplacement
 //@ func parseBlock
 //@   requires c != nil && u != nil && hcOK(u)
-//@   modifies Dispenser.cursor, staticUpstream
+//@   modifies Dispenser.cursor, staticUpstream, MV:map[string][]github.com/tmpim/casket/caskethttp/proxy.headerReplacement, MD:map[string][]github.com/tmpim/casket/caskethttp/proxy.headerReplacement, E:github.com/tmpim/casket/caskethttp/proxy.headerReplacement
 //@   ensures [interval_stays_positive] result == nil ==> hcOK(u)
 //@   ensures [cursor_monotone] c.cursor >= old(c.cursor)
 
@@ -383,7 +385,7 @@ package proxy
 //@   requires optionsParsed == 0
 //@   at call parseBlock do optionsParsed = optionsParsed + 1
 //@   at call (*staticUpstream).NewHost do createdAt(result0) = optionsParsed
-//@   at call builtin:append#4 assert [backends_created_after_all_options] forall(k, 0, len(upstream.Hosts), createdAt(upstream.Hosts[k]) == optionsParsed)
+//@   at call builtin:append#3 assert [backends_created_after_all_options] forall(k, 0, len(upstream.Hosts), createdAt(upstream.Hosts[k]) == optionsParsed)
 //@   loop 2 invariant upstream != nil && hcOK(upstream)
 //@   loop 3 invariant upstream != nil && hcOK(upstream)
 //@   loop 4 invariant 0 <= #i && #i <= len(to) && len(upstream.Hosts) == len(to) && upstream != nil && hcOK(upstream) && forall(k, 0, #i, createdAt(upstream.Hosts[k]) == optionsParsed)
